@@ -132,6 +132,14 @@ func (srv *Server) handleChannel(ctx context.Context, c *ServerChannel) {
 
 	if err != nil {
 		log.Printf("server: establish: %v\n", err)
+		releaseChannel(c)
+		return
+	}
+
+	if c.State() != SessionStateEstablished {
+		// The session has failed during the establishment, which is not an error for
+		// EstablishSession, but there is no session to be announced or served.
+		releaseChannel(c)
 		return
 	}
 
@@ -147,6 +155,7 @@ func (srv *Server) handleChannel(ctx context.Context, c *ServerChannel) {
 			defer cancel()
 			_ = c.FinishSession(ctx)
 		}
+		releaseChannel(c)
 
 		finished := srv.config.Finished
 		if finished != nil {
@@ -158,6 +167,14 @@ func (srv *Server) handleChannel(ctx context.Context, c *ServerChannel) {
 		log.Printf("server: listen: %v\n", err)
 		return
 	}
+}
+
+// releaseChannel closes the transport of a channel that will not be served anymore and stops its receiver goroutine.
+// The transport is closed even if it reports itself as not connected (which is the case for a TCP connection
+// that was closed by the remote party), since it may still be holding the underlying connection.
+func releaseChannel(c *ServerChannel) {
+	_ = c.transport.Close()
+	_ = c.Close()
 }
 
 // Close stops the server by closing the transport listeners and all active sessions.
